@@ -9,7 +9,7 @@ from typing import Any
 from ..astutil import (Locals, anon, call_name, cfg_of, error_names, find_stmts, local_names, norm, receivers, returns_error, short,
                        stmt_calls, truth_table, where)
 from ..cfg import CFG, walk_own
-from ..core import Report
+from ..core import PKG, Report
 from ..pyindex import FuncInfo, dotted
 
 # stores whose key is unique by construction or whose merge is intended: construct key -> reason (confirmed by reading)
@@ -73,6 +73,34 @@ def _registry_stores(f: FuncInfo, names: set[str]) -> list[tuple[ast.stmt, str, 
     return [x for x in out if id(x[0]) not in inner]
 
 
+def _holders(st: ast.stmt, reg: str) -> set[str]:
+    """local names through which statement st reaches registry `reg`: the root of `<root>...reg`, or reg itself when it is a local"""
+    out = set()
+    for n in walk_own(st):
+        if isinstance(n, ast.Attribute) and n.attr == reg:
+            root = n.value
+            while isinstance(root, (ast.Attribute, ast.Subscript, ast.Call)):
+                root = root.func if isinstance(root, ast.Call) else root.value
+            if isinstance(root, ast.Name):
+                out.add(root.id)
+        elif isinstance(n, ast.Name) and n.id == reg:
+            out.add(reg)
+    return out
+
+
+def _rebound_between(cfg: CFG, test: ast.stmt, store: ast.stmt, holders: set[str]) -> list[ast.stmt]:
+    """statements that assign one of `holders` on some path test -> ... -> store (not passing the test again)"""
+    out = []
+    between = cfg.reachable_from(test, avoid=lambda n: n is store or n is test)
+    for r in between:
+        if not isinstance(r, ast.stmt) or r is test or r is store:
+            continue
+        if any(isinstance(x, ast.Name) and isinstance(x.ctx, ast.Store) and x.id in holders for x in walk_own(r)):
+            if store in cfg.reachable_from(r, avoid=lambda n: n is test):
+                out.append(r)
+    return sorted(out, key=lambda s_: getattr(s_, "lineno", 0))
+
+
 def _membership_tests(f: FuncInfo, reg: str) -> list[tuple[ast.stmt, str]]:
     """statements of f that test `K in <...>.reg` / call reg.pop(K) / reg.get(K): (stmt, normalised K)"""
     out = []
@@ -134,7 +162,8 @@ def check_registries(rep: Report, ctx: Any, rid: str) -> None:
     cfgs: dict[str, CFG] = {}
     n_stores = 0
     for f in ix.all_functions:
-        if not f.module.name.startswith("openapi_python_client.parser"):
+        # the code that turns document items into artefacts: the parser, and the module that writes the artefacts out (Project)
+        if not (f.module.name.startswith(f"{PKG}.parser") or f.module.name == PKG):
             continue
         locs = local_registries(f)
         stores = _registry_stores(f, ATTR_REGISTRIES | set(locs))
@@ -152,6 +181,10 @@ def check_registries(rep: Report, ctx: Any, rid: str) -> None:
             tests = _membership_tests(f, reg)
             same = [t for t, k in tests if k == norm(key)]
             other = sorted({k for t, k in tests if k != norm(key)})
+            if isinstance(key, ast.Constant):
+                # a literal key names a fixed slot of the program, not an item of the document: no two items can meet in it
+                rep.ok(rid, ckey, "literal key", "not derived from the document", nontrivial=False)
+                continue
             if kind == "setdefault":
                 # setdefault is itself test-and-store: an existing entry is kept and shared (endpoints grouped by tag)
                 rep.ok(rid, ckey, "setdefault", "test-and-store in one operation", nontrivial=False)
@@ -197,8 +230,16 @@ def check_registries(rep: Report, ctx: Any, rid: str) -> None:
             t0 = next(t for t in same if cfg.is_dominated_by(st, lambda n, t=t: n is t))
             reach = cfg.reachable_from(t0, avoid=lambda n: n is st)
             leads = any(isinstance(n, ast.stmt) and (returns_error(n, errs) or isinstance(n, ast.Raise)) for n in reach)
-            rep.check(leads, rid, ckey, "the membership test never leads to an error return or raise: a duplicate is not diagnosed",
-                      where(f, st), lhs="test " + norm(t0)[:80], rhs="reaches `return <error>` avoiding the store")
+            if not leads:
+                rep.fail(rid, ckey, "the membership test never leads to an error return or raise: a duplicate is not diagnosed",
+                         where(f, st), lhs="test " + norm(t0)[:80], rhs="reaches `return <error>` avoiding the store")
+                continue
+            # test and store must see the same registry: the variable holding it is not rebound on any path between them (a call
+            # that returns a new registry state in between may have added the very key that was tested)
+            stale = _rebound_between(cfg, t0, st, _holders(t0, reg) | _holders(st, reg))
+            rep.check(not stale, rid, ckey, "the registry is replaced between the membership test and the store: entries added in "
+                                            "between under the same key are overwritten without a diagnostic", where(f, stale[0] if stale else st),
+                      lhs="test " + norm(t0)[:60] + " ... " + (norm(stale[0])[:60] if stale else ""), rhs="no rebinding of the holder between test and store")
     rep.floor("registry_stores", n_stores, 9)
 
     # ---- compatibility condition of the enum builders (existing entry of another kind must be an error) ----------
@@ -306,36 +347,183 @@ def _atoms(e: ast.expr) -> list[str]:
     return bool_atoms(e)
 
 
+def _single_assignments(fn: ast.AST) -> dict[str, ast.AST]:
+    """locals of fn bound exactly once, by a plain assignment: reading them is reading their definition"""
+    out = {}
+    for name, ds in Locals(fn).defs.items():
+        if len(ds) == 1 and ds[0][0] == "assign" and ds[0][2] is not None:
+            out[name] = ds[0][2]
+    return out
+
+
+class _Subst(ast.NodeTransformer):
+    def __init__(self, env: dict[str, ast.AST]) -> None:
+        self.env = env
+
+    def visit_Name(self, n: ast.Name) -> ast.AST:
+        import copy
+
+        if isinstance(n.ctx, ast.Load) and n.id in self.env:
+            return copy.deepcopy(self.env[n.id])
+        return n
+
+
+def _subst(e: ast.AST, env: dict[str, ast.AST], rounds: int = 1) -> ast.AST:
+    import copy
+
+    out = copy.deepcopy(e)
+    for _ in range(rounds):
+        if not (names_in_load(out) & set(env)):
+            break
+        out = ast.fix_missing_locations(_Subst(env).visit(out))
+    return out
+
+
+def names_in_load(e: ast.AST) -> set[str]:
+    return {n.id for n in ast.walk(e) if isinstance(n, ast.Name) and isinstance(n.ctx, ast.Load)}
+
+
+def _inline_locals(e: ast.AST, fn: ast.AST) -> ast.AST:
+    """e with every once-assigned local of fn replaced by what it is bound to (three levels): the expression in terms of
+    parameters, loop variables and attributes, however many intermediate locals the author introduced"""
+    return _subst(e, _single_assignments(fn), rounds=3)
+
+
+def _innermost_for(fn: ast.AST, node: ast.AST) -> ast.For | None:
+    best = None
+    for lp in ast.walk(fn):
+        if isinstance(lp, (ast.For, ast.AsyncFor)) and any(x is node for s in lp.body for x in ast.walk(s)):
+            best = lp  # breadth-first walk: deeper loops come later
+    return best
+
+
+def _bind_call(g: FuncInfo, call: ast.Call) -> dict[str, ast.AST]:
+    """parameter name of g -> actual argument expression at `call`"""
+    a = g.node.args
+    pos = [x.arg for x in [*a.posonlyargs, *a.args]]
+    if pos and pos[0] in ("self", "cls") and g.kind in ("method", "classmethod", "property"):
+        pos = pos[1:]
+    env: dict[str, ast.AST] = {}
+    for p_, v in zip(pos, call.args):
+        if not isinstance(v, ast.Starred):
+            env[p_] = v
+    for k in call.keywords:
+        if k.arg is not None:
+            env[k.arg] = k.value
+    return env
+
+
+def _path_constructions(fn: ast.AST) -> list[tuple[ast.BinOp, ast.expr]]:
+    """`<dir> / f"...{NAME}..."` expressions of fn: (the path expression, NAME)"""
+    out = []
+    for n in ast.walk(fn):
+        if isinstance(n, ast.BinOp) and isinstance(n.op, ast.Div) and isinstance(n.right, ast.JoinedStr):
+            fv = [v.value for v in n.right.values if isinstance(v, ast.FormattedValue)]
+            if fv:
+                out.append((n, fv[0]))
+    return out
+
+
+def _stmt_containing(fn: ast.AST, node: ast.AST) -> ast.stmt | None:
+    best = None
+    for st in ast.walk(fn):
+        if isinstance(st, ast.stmt) and any(x is node for x in walk_own(st)):
+            best = st
+    return best
+
+
+def _diagnosing_guard(f: FuncInfo, scope: list[ast.stmt], name_txt: str, avoid: set[int], cfgs: dict[str, CFG]) -> bool:
+    """some membership test on the derived name inside `scope` from which a diagnostic (raise / error record / error return) is
+    reachable without passing the write: a test that merely selects between two silent behaviours protects nothing"""
+    cfg = cfg_of(f, cfgs)
+    errs = error_names(f.node)
+    for s in scope:
+        for st in ast.walk(s):
+            if not isinstance(st, ast.stmt):
+                continue
+            for c in walk_own(st):
+                if isinstance(c, ast.Compare) and len(c.ops) == 1 and isinstance(c.ops[0], (ast.In, ast.NotIn)) and \
+                        name_txt in norm(_inline_locals(c.left, f.node)):
+                    reach = cfg.reachable_from(st, avoid=lambda n: id(n) in avoid)
+                    if any(isinstance(n, ast.stmt) and (isinstance(n, ast.Raise) or returns_error(n, errs) or _records_error(n, errs))
+                           for n in reach):
+                        return True
+    return False
+
+
+def _records_error(st: ast.stmt, errs: set[str]) -> bool:
+    from ..astutil import constructs_error
+
+    for c in walk_own(st):
+        if isinstance(c, ast.Call) and isinstance(c.func, ast.Attribute) and c.func.attr in ("append", "extend") and c.args:
+            a0 = c.args[0]
+            if constructs_error(a0) or (isinstance(a0, ast.Name) and a0.id in errs):
+                return True
+    return False
+
+
 def check_module_files(rep: Report, ctx: Any, rid: str) -> None:
-    """per-item module files written in Project._build_models/_build_api: two items mapping to one path overwrite
-    each other silently unless a membership test guards the write."""
+    """per-item module files written by Project: two items mapping to one path overwrite each other silently unless a membership
+    test on the derived name that leads to a diagnostic guards the write.  A site is a path expression `<dir> / f"{NAME}.py"`
+    evaluated once per iteration of a loop - in the loop body itself or in a helper the loop body calls, in which case NAME is
+    read in the caller's terms (actual arguments substituted for the helper's parameters)."""
     ix = ctx.py
     proj = ix.cls("Project")
+    cfgs: dict[str, CFG] = {}
+    methods = list(proj.methods.values())
+
+    def call_sites(g: FuncInfo) -> list[tuple[FuncInfo, ast.Call]]:
+        out = []
+        for h in methods:
+            if h is g:
+                continue
+            for c in ast.walk(h.node):
+                if isinstance(c, ast.Call) and call_name(c) in (f"self.{g.name}", f"cls.{g.name}", f"{proj.name}.{g.name}"):
+                    out.append((h, c))
+        return out
+
+    # (function holding the loop, loop, NAME in that function's terms, node evaluated per iteration, statements to look for a guard in,
+    #  ids of the statements that perform / lead to the write)
+    sites: list[tuple[FuncInfo, ast.For, ast.AST, ast.AST, list[tuple[FuncInfo, list[ast.stmt], set[int]]]]] = []
+
+    def lift(g: FuncInfo, node: ast.AST, name: ast.AST, guards: list[tuple[FuncInfo, list[ast.stmt], set[int]]], depth: int) -> None:
+        name = _inline_locals(name, g.node)
+        loop = _innermost_for(g.node, node)
+        st = _stmt_containing(g.node, node)
+        users = {id(st)} if st is not None else set()
+        if isinstance(st, ast.Assign):
+            bound = {t.id for t in st.targets if isinstance(t, ast.Name)}
+            users |= {id(s) for s in ast.walk(g.node) if isinstance(s, ast.stmt) and s is not st and
+                      any(isinstance(x, ast.Name) and x.id in bound and isinstance(x.ctx, ast.Load) for x in walk_own(s))}
+        if loop is not None:
+            sites.append((g, loop, name, node, guards + [(g, list(loop.body), users)]))
+            return
+        params = {a.arg for a in [*g.node.args.posonlyargs, *g.node.args.args, *g.node.args.kwonlyargs]} - {"self", "cls"}
+        if depth <= 0 or not (names_in_load(name) & params):
+            return  # evaluated once per run (a fixed file) or not traceable: not a per-item file
+        for h, call in call_sites(g):
+            lift(h, call, _subst(name, _bind_call(g, call)), guards + [(g, list(g.node.body), users)], depth - 1)
+
+    for g in methods:
+        for node, name in _path_constructions(g.node):
+            lift(g, node, name, [], 2)
+
     n = 0
-    done: set[int] = set()
-    for f in proj.methods.values():
-        for loop in [x for x in ast.walk(f.node) if isinstance(x, ast.For)]:
-            for st in loop.body:
-                for sub in ast.walk(st):
-                    if isinstance(sub, ast.Assign) and isinstance(sub.value, ast.BinOp) and isinstance(sub.value.op, ast.Div) \
-                            and isinstance(sub.value.right, ast.JoinedStr):
-                        # module_path = dir / f"{<name>}.py"
-                        name_expr = [v.value for v in sub.value.right.values if isinstance(v, ast.FormattedValue)]
-                        if not name_expr or id(sub) in done:
-                            continue
-                        done.add(id(sub))
-                        # the innermost loop containing the assignment is the scope of uniqueness
-                        inner = [l2 for l2 in ast.walk(loop) if isinstance(l2, ast.For) and l2 is not loop and any(x is sub for x in ast.walk(l2))]
-                        if inner:
-                            done.discard(id(sub))
-                            continue
-                        n += 1
-                        key = f"{short(f)}::file[{anon(name_expr[0], local_names(f.node))}]@{anon(loop.iter, local_names(f.node))}"
-                        body_txt = " ".join(norm(s) for s in loop.body)
-                        guarded = any(isinstance(c, ast.Compare) and isinstance(c.ops[0], (ast.In, ast.NotIn)) and
-                                      norm(name_expr[0]) in norm(c.left) for s in loop.body for c in ast.walk(s)
-                                      if isinstance(c, ast.Compare))
-                        rep.check(guarded, rid, key, "one file per item, named from the sanitised name, written without any "
-                                                     "collision test: two items with the same derived name overwrite each other",
-                                  where(f, sub), lhs=norm(sub)[:90], rhs="guarded by a membership test on the derived name")
+    seen: set[tuple[int, str]] = set()
+    for f, loop, name, node, guards in sites:
+        lnames = local_names(f.node)
+        key = f"{short(f)}::file[{anon(name, lnames)}]@{anon(loop.iter, lnames)}"
+        if (id(loop), key) in seen:
+            continue
+        seen.add((id(loop), key))
+        n += 1
+        guarded = False
+        for g, scope, users in guards:
+            # the name as the guard's function spells it: in the loop's function the lifted expression, in a helper its own
+            for _, nm in ([(None, name)] if g is f else _path_constructions(g.node)):
+                if _diagnosing_guard(g, scope, norm(_inline_locals(nm, g.node)), users, cfgs):
+                    guarded = True
+        rep.check(guarded, rid, key, "one file per item, named from the sanitised name, written without any collision test that "
+                                     "leads to a diagnostic: two items with the same derived name overwrite each other",
+                  where(f, node), lhs=norm(node)[:90], rhs="guarded by a membership test on the derived name that reaches a diagnostic")
     rep.floor("per_item_module_files", n, 3)
